@@ -35,7 +35,7 @@ func main() {
 	list := flag.Bool("list", false, "list rules")
 	arch := flag.String("goarch", "", "GOARCH for -all")
 	tags := flag.String("tags", "", "build tags for -all")
-	vtaF := flag.Bool("vta", false, "use VTA call graph for -all")
+	vtaF := flag.Bool("vta", true, "use the VTA-refined call graph (false: plain CHA)")
 	flag.Parse()
 
 	abs, err := filepath.Abs(*repo)
@@ -126,9 +126,9 @@ func doProp(prop, tier, repo, verif string) int {
 	if err != nil {
 		fatal(err)
 	}
-	cfgs := []core.Config{{Repo: repo}}
+	cfgs := []core.Config{{Repo: repo, VTA: true}}
 	if tier == "thorough" {
-		cfgs = []core.Config{{Repo: repo, VTA: true}, {Repo: repo, GOARCH: "386"}, {Repo: repo, Tags: "verif"}}
+		cfgs = []core.Config{{Repo: repo, VTA: true}, {Repo: repo, GOARCH: "386", VTA: true}, {Repo: repo, Tags: "verif", VTA: true}, {Repo: repo}}
 	}
 	type keyed struct {
 		o   core.Obligation
@@ -338,7 +338,7 @@ func doReplay(file, repo, verif string) int {
 		fmt.Printf("rule %s is a framework obligation (load/self-test); re-run bin/check %s quick\n", rule, prop)
 		return 1
 	}
-	res, err := runRules(core.Config{Repo: repo}, rs)
+	res, err := runRules(core.Config{Repo: repo, VTA: true}, rs)
 	if err != nil {
 		fmt.Println("LOAD-ERROR:", err)
 		return 1
